@@ -453,7 +453,15 @@ def beartype_func(
     # same callable... Doing so prevents all subsequent decorations from
     # erroneously ignoring this previously applied no-time strategy.
     if conf.strategy is BeartypeStrategy.O0:
-        no_type_check(func)  # pyright: ignore
+        # Attempt to do so.
+        try:
+            no_type_check(func)  # pyright: ignore
+        # If that callable prohibits attribute assignment (e.g., due to being a
+        # bound method, method-wrapper, or "functools.partial" object), that
+        # callable *CANNOT* be monkey-patched. Since this strategy performs *NO*
+        # type-checking, simply preserve that callable as is.
+        except AttributeError:
+            return func  # type: ignore[return-value]
     # Else, this configuration enables a positive-time strategy performing at
     # least the minimal amount of type-checking.
 
